@@ -103,6 +103,10 @@ class DataSet:
                 "Data and DataArray must have the same dimensionality"
             )
 
+        if not 0 <= axis < len(self.shape):
+            raise ValueError("Axis {} is out of range for a DataArray with "
+                             "{} dimensions".format(axis, len(self.shape)))
+
         if any([s != ds for i, (s, ds) in
                 enumerate(zip(self.shape, data.shape)) if i != axis]):
             raise ValueError("Shape of data and shape of DataArray must match "
